@@ -267,6 +267,10 @@ def gen_ops(rng, n, plain):
         elif r < 0.76 and not plain:
             src = rng.choice([b"HEAD", b"refs/heads/sym", b"refs/heads/sym2", b"refs/heads/c"])
             ops.append(["symref", src, rng.choice([n_ for n_ in NAMES if n_ != src and n_ != b"HEAD"])])
+        elif r < 0.74 and plain == "symrefs-created-not-written-through":
+            # symbolic refs are created (HEAD and two dedicated names, pointing at plain names, present or not) but nothing is ever written
+            # through them: every other operation of a plain sequence names a plain ref directly
+            ops.append(["symref", rng.choice([b"HEAD", b"refs/heads/sym", b"refs/heads/sym2"]), rng.choice(PLAIN_NAMES)])
         elif r < 0.86:
             ops.append(["pack", rng.random() < 0.7])
         elif r < 0.93:
@@ -665,7 +669,7 @@ def main(ctx):
     for i in range(ctx.budget(500, 6000)):
         cases.append({"kind": "seq", "seed": "%d/s/%d" % (ctx.seed, i), "n": 25, "two_handles": i % 2 == 1})
     for i in range(ctx.budget(200, 2500)):
-        cases.append({"kind": "seq", "seed": "%d/p/%d" % (ctx.seed, i), "n": 25, "plain": True, "reftable": True})
+        cases.append({"kind": "seq", "seed": "%d/p/%d" % (ctx.seed, i), "n": 25, "plain": True if i % 2 else "symrefs-created-not-written-through", "reftable": True})
     for i in range(ctx.budget(40, 400)):
         cases.append({"kind": "chain", "seed": "%d/c/%d" % (ctx.seed, i)})
     ctx.rule = ("names: ALL byte strings of length 2..%d over the 20-symbol alphabet %s through check_ref_format vs a transcription of "
